@@ -568,7 +568,7 @@ class Plucker(SMUserList):
         :seealso: Plucker.or, Plucker.intersects
         """
         l1 = self
-        return np.linalg.norm(np.cross(l1.w, l2.w) ) < tol
+        return np.linalg.norm(np.cross(l1.uw, l2.uw) ) < tol
 
     
     def __or__(self, l2):  # pylint: disable=no-self-argument
